@@ -45,3 +45,39 @@ package hdkeychain
 //@   ensures err == nil && !result.isPrivate ==> len(result.key) == 33
 //@   ensures err == nil && result.isPrivate ==> len(result.key) == 32
 //@   ensures err == nil && result.isPrivate ==> 0 <= beval(result.key) && beval(result.key) < curveN()
+
+//@ func (*ExtendedKey).pubKeyBytes
+//@   props C14 C04 C19
+//@   requires k != nil
+//@   modifies k
+//@   ensures !old(k.isPrivate) ==> sameSlice(result, old(k.key))
+//@   ensures old(k.isPrivate) ==> len(result) > 0 && (old(len(k.pubKey)) == 0 ==> len(result) == 33)
+//@   ensures k.isPrivate == old(k.isPrivate) && sameSlice(k.key, old(k.key)) && sameSlice(k.chainCode, old(k.chainCode)) && sameSlice(k.parentFP, old(k.parentFP)) && sameSlice(k.version, old(k.version)) && k.depth == old(k.depth) && k.childNum == old(k.childNum)
+
+// H1: master key generation
+//@ func NewMaster
+//@   props C14 C04 C19
+//@   requires net != nil
+//@   modifies gmap("bigval"), gmap("hdata")
+//@   ensures (len(seed) < 16 || len(seed) > 64) ==> err == ErrInvalidSeedLen
+//@   ensures err != nil ==> result == nil
+//@   ensures err == nil ==> wf(result) && result.isPrivate && result.depth == 0 && result.childNum == 0
+//@   ensures err == nil ==> result.parentFP[0] == 0 && result.parentFP[1] == 0 && result.parentFP[2] == 0 && result.parentFP[3] == 0
+//@   ensures err == nil ==> bytesEq(result.key, 0, ghosts("mac", strOf(masterKey), "" + strOf(seed)), 0, 32) && bytesEq(result.chainCode, 0, ghosts("mac", strOf(masterKey), "" + strOf(seed)), 32, 32)
+//@   ensures err == nil ==> 0 < beval(result.key) && beval(result.key) < curveN()
+
+// H3 (first half): neutering keeps chain code, depth, fingerprint and child number and switches to the public key
+//@ func (*ExtendedKey).Neuter
+//@   props C14 C04 C19
+//@   requires wf(k)
+//@   modifies k
+//@   ensures !old(k.isPrivate) ==> result == k && err == nil
+//@   ensures err != nil ==> result == nil
+//@   ensures err == nil && old(k.isPrivate) ==> result != nil && !result.isPrivate && len(result.version) == 4 && len(result.key) > 0
+//@   ensures err == nil && old(k.isPrivate) ==> sameSlice(result.chainCode, old(k.chainCode)) && sameSlice(result.parentFP, old(k.parentFP)) && result.depth == old(k.depth) && result.childNum == old(k.childNum)
+
+// H4 (serialisation): never panics on a well-formed key (a short private key is padded by paddedAppend)
+//@ func (*ExtendedKey).String
+//@   props C14 C19
+//@   requires k != nil && len(k.version) == 4 && len(k.parentFP) == 4 && len(k.chainCode) == 32 && len(k.key) <= 33 && len(k.pubKey) <= 33
+//@   modifies k
